@@ -108,6 +108,7 @@ class PathRun:
         self.depth = 0
         self.tier = 'T1'
         self.handles = 0
+        self.gcache = {}
         self.fields = {}       # attribute name -> current z3 Array(Val -> Val): mutable attributes of opaque objects
         self.fields0 = {}
         self.pre_fields = {}
@@ -323,8 +324,11 @@ class PathRun:
     def new_handle(self, seqterm):
         """a Val standing for a sequence value"""
         self.handles += 1
-        h = z3.Int(self.fresh('h'))
-        self.pc.append(items(h) == seqterm)
+        h = pack(seqterm)
+        key = ('pack', seqterm.get_id())
+        if key not in self.gcache:
+            self.gcache[key] = seqterm      # keeps the term alive: ids are only unique among live terms
+            self.pc.append(items(h) == seqterm)
         return Val.VSeq(h)
 
     def seq_facts(self, kind, r, *parts):
